@@ -31,6 +31,16 @@ impl ChildOut {
     }
 }
 
+/// the running binary itself: /proc/self/exe stays valid when the file is rebuilt meanwhile
+fn own_exe() -> std::io::Result<std::path::PathBuf> {
+    let p = std::path::PathBuf::from("/proc/self/exe");
+    if p.exists() {
+        Ok(p)
+    } else {
+        std::env::current_exe()
+    }
+}
+
 pub struct Spawn<'a> {
     pub ctx: &'a CaseCtx,
     pub role: &'a str,
@@ -47,7 +57,7 @@ pub struct Spawn<'a> {
 /// child does not apply to them); only for children with small outputs (< 64 KiB per stream)
 pub fn spawn_piped(s: &Spawn) -> std::io::Result<ChildOut> {
     use std::io::Read;
-    let exe = std::env::current_exe()?;
+    let exe = own_exe()?;
     let mut cmd = Command::new(exe);
     cmd.arg("child")
         .arg(&s.ctx.prop)
@@ -102,7 +112,7 @@ pub fn spawn_piped(s: &Spawn) -> std::io::Result<ChildOut> {
 }
 
 pub fn spawn(s: &Spawn) -> std::io::Result<ChildOut> {
-    let exe = std::env::current_exe()?;
+    let exe = own_exe()?;
     let out_path = s.ctx.dir.join(format!("{}.stdout", s.tag));
     let err_path = s.ctx.dir.join(format!("{}.stderr", s.tag));
     let out_f = std::fs::File::create(&out_path)?;
